@@ -41,7 +41,7 @@ def worker(item: Any, res: runner.Result) -> None:
     from mc import sem, detect, harness  # pylint: disable=import-outside-toplevel
 
     focus, mode, src = item
-    if mode == "raw":
+    if mode in ("raw", "g1a"):
         from mc.asm import tokenize  # pylint: disable=import-outside-toplevel
         from mc.refcfg import RefGraph  # pylint: disable=import-outside-toplevel
 
